@@ -416,6 +416,91 @@ static Op gen_pair_op(Rng& r, std::string& kind) {
     return op;
   }
   if (r.chance(1, 6)) {
+    // constructor STRING vs the dictionary it denotes. The Standard's constructor-string parser fills in components that
+    // the string skips: hostname present without port -> port ""; search or hash reached without a pathname -> pathname
+    // "/" for a special scheme and "" otherwise; hash reached without a search -> search "". Everything the string does
+    // not reach stays absent (-> "*"). The twin dictionary spells exactly that out.
+    kind = "ctor";
+    op.sub = uint8_t((r.chance(1, 8) ? 1 : 0) | (0 << 1) | (0 << 2));
+    const std::string proto = pickl(r, {"https", "http", "ws", "ftp", "foo", "web+app"});
+    const std::string host = pickl(r, {"example.com", "*.example.com", ":sub.example.org", "127.0.0.1", "ex\xc3\xa4mple.com", "{www.}?example.com", "[\\:\\:1]"});
+    std::string str = proto + "://";
+    std::string user, pw, port, path, search, hash;
+    bool has_port = false, has_path = false, has_search = false, has_hash = false, has_cred = false;
+    if (r.chance(1, 6)) {
+      has_cred = true;
+      user = pickl(r, {"user", ":u", "a-b"});
+      pw = pickl(r, {"pw", ":p", "x"});
+      str += user + "\\:" + pw + "@";
+    }
+    str += host;
+    if (r.chance(1, 3)) {
+      has_port = true;
+      port = pickl(r, {"8080", "81", ":port", "(\\d+)", "*"});
+      str += ":" + port;
+    }
+    if (r.chance(2, 3)) {
+      has_path = true;
+      // an ESCAPED '?' or '#' still ends the pathname of a constructor string (the Standard's "is a search prefix" accepts
+      // escaped-char tokens), so such literals cannot be written into the string form at all
+      for (int tries = 0; tries < 10; tries++) {
+        path = gen_pat_path(r);
+        if (path.find("\\?") == std::string::npos && path.find("\\#") == std::string::npos) break;
+        path = "/plain";
+      }
+      if (path.empty()) path = "/";
+      str += path;
+    }
+    if (r.chance(1, 2)) {
+      has_search = true;
+      search = pickl(r, {"q=1", "q=:v", "*", "a=b&c=d", ""});
+      // In a constructor string a '?' that follows a name, a group, a wildcard or a closing brace is the "optional"
+      // MODIFIER, not the search delimiter. The string must therefore end in a plain literal character before its '?'.
+      auto ends_plain = [](const std::string& t) {
+        if (t.empty()) return false;
+        char last = t.back();
+        if (last == ')' || last == '}' || last == '*' || last == '+' || last == '?') return false;
+        size_t i = t.size();
+        while (i > 0 && (isalnum((unsigned char)t[i - 1]) || t[i - 1] == '_')) i--;
+        return !(i > 0 && t[i - 1] == ':' && !(i > 1 && t[i - 2] == '\\'));  // not inside ":name"
+      };
+      if (!ends_plain(str)) {
+        const std::string extra = has_path ? "/z" : (has_port ? "/z" : "");
+        if (!extra.empty()) {
+          path += extra;
+          str += extra;
+          has_path = true;
+        } else if (!ends_plain(str)) {
+          path = "/z";
+          str += path;
+          has_path = true;
+        }
+      }
+      str += "?" + search;
+    }
+    if (r.chance(1, 3)) {
+      has_hash = true;
+      hash = pickl(r, {"frag", ":h", "*", ""});
+      str += "#" + hash;
+    }
+    op.args[0] = str;
+    // the twin is carried in the input slots (this op has no input)
+    const bool special = proto == "https" || proto == "http" || proto == "ws" || proto == "ftp";
+    op.args[9] = proto;
+    if (has_cred) {
+      op.args[10] = user;
+      op.args[11] = pw;
+    }
+    op.args[12] = host;
+    op.args[13] = has_port ? port : std::string();
+    if (has_path) op.args[14] = path;
+    else if (has_search || has_hash) op.args[14] = special ? "/" : "";
+    if (has_search) op.args[15] = search;
+    else if (has_hash) op.args[15] = "";
+    if (has_hash) op.args[16] = hash;
+    return op;
+  }
+  if (r.chance(1, 6)) {
     // a port that only LOOKS like the default (leading zeros): the Standard elides by string comparison, so it
     // stays and canonicalises exactly as it does next to a non-special protocol
     kind = "port0";
@@ -493,6 +578,13 @@ static Op gen_pair_op(Rng& r, std::string& kind) {
 // the spelled-out twin of a pair op, or nullopt when the pair does not apply (e.g. the base does not parse)
 static std::optional<Op> pair_twin(const Op& a, const std::string& kind) {
   Op b = a;
+  if (kind == "ctor") {
+    if (a.args.size() < 18 || !a.args[9]) return std::nullopt;
+    b.sub = uint8_t((a.sub & 1) | (1 << 1));  // a dictionary pattern
+    for (size_t k = 0; k < 9; k++) b.args[k] = a.args[9 + k];
+    for (size_t k = 9; k < 18; k++) b.args[k].reset();
+    return b;
+  }
   if (kind == "setter") return std::nullopt;  // compared with the URL setter, not with a second pattern (see execute)
   if (kind == "port0") {
     if (!a.args[0] || !a.args[4]) return std::nullopt;
@@ -926,7 +1018,10 @@ static Result execute(const Plan& p, Stats& st) {
     if (twin) {
       hs.off();
       Hist<ada::url_aggregator> h1, h2;
-      std::string a = exec_op(ops[0], h1).text, b = exec_op(*twin, h2).text;
+      Op first = ops[0];
+      if (kind == "ctor")
+        for (size_t k = 9; k < first.args.size(); k++) first.args[k].reset();
+      std::string a = exec_op(first, h1).text, b = exec_op(*twin, h2).text;
       st.add("pair." + kind + ".checked");
       res.hash = fnv1a(a + "#" + b, res.hash);
       bool oka = a.find("construct=ok") != std::string::npos, okb = b.find("construct=ok") != std::string::npos;
@@ -946,7 +1041,8 @@ static Result execute(const Plan& p, Stats& st) {
       }
       if (!why.empty()) {
         res.violation = true;
-        res.vclass = kind == "port" || kind == "port0" ? "default-port-elision-changes-outcome"
+        res.vclass = kind == "ctor" ? "constructor-string-differs-from-dictionary"
+                     : kind == "port" || kind == "port0" ? "default-port-elision-changes-outcome"
                      : kind == "ctorcase"             ? "scheme-case-changes-outcome"
                                                       : "base-inheritance-changes-outcome";
         res.sig = why.substr(0, why.find('='));
